@@ -1,1 +1,466 @@
-//! (under construction)
+//! Workload generators: random formula trees (all constructs, polarity-tracked fixed points),
+//! rendering to text with random spellings / whitespace / comments, token-level mutations.
+
+use crate::refsyn::{Ast, Cmp, Op};
+use crate::util::Rng;
+
+#[derive(Clone, Debug)]
+pub struct GenCfg {
+    pub names: Vec<String>,
+    pub max_depth: u32,
+    pub allow_fix: bool,
+    pub allow_quant: bool,
+    pub allow_count: bool,
+    pub allow_ref: bool,
+    pub max_list: usize,
+    /// weight (out of 100) of binder nodes among inner nodes
+    pub binder_weight: u64,
+    /// maximal nesting of fixed points
+    pub max_fix_depth: u32,
+}
+
+impl GenCfg {
+    pub fn simple(names: &[&str], depth: u32) -> GenCfg {
+        GenCfg {
+            names: names.iter().map(|s| s.to_string()).collect(),
+            max_depth: depth,
+            allow_fix: true,
+            allow_quant: true,
+            allow_count: true,
+            allow_ref: false,
+            max_list: 3,
+            binder_weight: 18,
+            max_fix_depth: 2,
+        }
+    }
+}
+
+#[derive(Clone, Copy, PartialEq, Eq, Debug)]
+enum Pol {
+    Pos,
+    Neg,
+    Mixed,
+}
+
+impl Pol {
+    fn flip(self) -> Pol {
+        match self {
+            Pol::Pos => Pol::Neg,
+            Pol::Neg => Pol::Pos,
+            Pol::Mixed => Pol::Mixed,
+        }
+    }
+}
+
+#[derive(Clone)]
+struct Scope {
+    /// fixed-point names in scope with the polarity of the current position w.r.t. each
+    fix: Vec<(String, Pol)>,
+    fix_depth: u32,
+}
+
+impl Scope {
+    fn map(&self, f: impl Fn(Pol) -> Pol) -> Scope {
+        Scope { fix: self.fix.iter().map(|(n, p)| (n.clone(), f(*p))).collect(), fix_depth: self.fix_depth }
+    }
+    fn without(&self, names: &[String]) -> Scope {
+        Scope { fix: self.fix.iter().filter(|(n, _)| !names.contains(n)).cloned().collect(), fix_depth: self.fix_depth }
+    }
+}
+
+fn gen_leaf(rng: &mut Rng, cfg: &GenCfg, sc: &Scope) -> Ast {
+    // prefer an in-scope fixed-point variable at a positive position
+    let usable: Vec<&String> = sc.fix.iter().filter(|(_, p)| *p == Pol::Pos).map(|(n, _)| n).collect();
+    if !usable.is_empty() && rng.chance(2, 5) {
+        return Ast::Var((*rng.pick(&usable)).clone());
+    }
+    if cfg.allow_ref && rng.chance(1, 12) {
+        return Ast::Ref(format!("r{}", rng.below(2)));
+    }
+    if rng.chance(1, 10) {
+        return if rng.chance(1, 2) { Ast::True } else { Ast::False };
+    }
+    // a plain variable that is not a restricted fixed-point name
+    for _ in 0..8 {
+        let n = rng.pick(&cfg.names).clone();
+        match sc.fix.iter().find(|(x, _)| *x == n) {
+            None => return Ast::Var(n),
+            Some((_, Pol::Pos)) => return Ast::Var(n),
+            Some(_) => continue,
+        }
+    }
+    Ast::True
+}
+
+fn gen_node(rng: &mut Rng, cfg: &GenCfg, depth: u32, sc: &Scope) -> Ast {
+    if depth == 0 || rng.chance(1, 6) {
+        return gen_leaf(rng, cfg, sc);
+    }
+    let d = depth - 1;
+    let roll = rng.below(100);
+    let binder = cfg.binder_weight;
+    if roll < binder {
+        // binder: quantifier or fixed point
+        let want_fix = cfg.allow_fix && sc.fix_depth < cfg.max_fix_depth && rng.chance(2, 5);
+        if want_fix {
+            let x = rng.pick(&cfg.names).clone();
+            let mut inner = sc.without(&[x.clone()]);
+            inner.fix.push((x.clone(), Pol::Pos));
+            inner.fix_depth += 1;
+            let body = gen_node(rng, cfg, d, &inner);
+            return Ast::Fix(x, rng.chance(1, 2), Box::new(body));
+        }
+        if cfg.allow_quant {
+            let k = match rng.below(10) {
+                0 => 0,
+                1..=6 => 1,
+                7..=8 => 2,
+                _ => 3,
+            };
+            let mut vs = Vec::new();
+            for _ in 0..k {
+                vs.push(rng.pick(&cfg.names).clone());
+            }
+            let inner = sc.without(&vs);
+            let body = gen_node(rng, cfg, d, &inner);
+            return Ast::Quant(rng.chance(1, 2), vs, Box::new(body));
+        }
+    }
+    if cfg.allow_count && roll < binder + 16 {
+        let cmp = *rng.pick(&crate::refsyn::ALL_CMPS);
+        let len = rng.usize(cfg.max_list + 1);
+        let (pl, pr): (fn(Pol) -> Pol, fn(Pol) -> Pol) = match cmp {
+            Cmp::AtLeast | Cmp::MoreThan => (|p| p, |p| p.flip()),
+            Cmp::AtMost | Cmp::LessThan => (|p| p.flip(), |p| p),
+            Cmp::Exactly => (|_p| Pol::Mixed, |_p| Pol::Mixed),
+        };
+        let lsc = sc.map(pl);
+        let mut xs: Vec<Ast> = Vec::new();
+        for _ in 0..len {
+            // sometimes repeat an operand
+            if !xs.is_empty() && rng.chance(1, 5) {
+                let c: Ast = rng.pick(&xs).clone();
+                xs.push(c);
+            } else {
+                xs.push(gen_node(rng, cfg, d.min(2), &lsc));
+            }
+        }
+        if rng.chance(2, 5) {
+            let rsc = sc.map(pr);
+            let len2 = rng.usize(cfg.max_list + 1);
+            let mut ys = Vec::new();
+            for _ in 0..len2 {
+                ys.push(gen_node(rng, cfg, d.min(1), &rsc));
+            }
+            return Ast::CountList(cmp, xs, ys);
+        }
+        let l = len as u64;
+        let n = match rng.below(8) {
+            0 => 0,
+            1 => 1,
+            2 => l,
+            3 => l + 1,
+            4 => l.saturating_sub(1),
+            5 => 2,
+            _ => rng.below(l + 2),
+        };
+        return Ast::CountConst(cmp, xs, n);
+    }
+    if roll < binder + 26 {
+        return Ast::Not(Box::new(gen_node(rng, cfg, d, &sc.map(|p| p.flip()))));
+    }
+    if roll < binder + 36 {
+        let c = gen_node(rng, cfg, d, &sc.map(|_| Pol::Mixed));
+        let t = gen_node(rng, cfg, d, sc);
+        let e = gen_node(rng, cfg, d, sc);
+        return Ast::Ite(Box::new(c), Box::new(t), Box::new(e));
+    }
+    let op = *rng.pick(&crate::refsyn::ALL_OPS);
+    let (pl, pr): (fn(Pol) -> Pol, fn(Pol) -> Pol) = match op {
+        Op::And | Op::Or => (|p| p, |p| p),
+        Op::Implies => (|p| p.flip(), |p| p),
+        Op::ImpliesInv => (|p| p, |p| p.flip()),
+        Op::Nor | Op::Nand => (|p| p.flip(), |p| p.flip()),
+        Op::Xor | Op::Iff => (|_| Pol::Mixed, |_| Pol::Mixed),
+    };
+    let l = gen_node(rng, cfg, d, &sc.map(pl));
+    let r = gen_node(rng, cfg, d, &sc.map(pr));
+    Ast::Bin(op, Box::new(l), Box::new(r))
+}
+
+pub fn gen_ast(rng: &mut Rng, cfg: &GenCfg) -> Ast {
+    let depth = 1 + rng.below(cfg.max_depth as u64) as u32;
+    gen_node(rng, cfg, depth, &Scope { fix: vec![], fix_depth: 0 })
+}
+
+/// A body for `lfp/gfp x # body` that is monotone in x by construction (x only at positive positions).
+pub fn gen_monotone_body(rng: &mut Rng, cfg: &GenCfg, x: &str) -> Ast {
+    let depth = 1 + rng.below(cfg.max_depth as u64) as u32;
+    gen_node(rng, cfg, depth, &Scope { fix: vec![(x.to_string(), Pol::Pos)], fix_depth: 1 })
+}
+
+// ------------------------------------------------------------------------------------ rendering
+
+#[derive(Clone, Copy, Debug, PartialEq, Eq)]
+pub enum Style {
+    /// one canonical spelling, single spaces
+    Plain,
+    /// random alias spellings, random whitespace, comments, stray separators, redundant parentheses
+    Fancy,
+}
+
+fn spell(rng: &mut Rng, style: Style, options: &[&str]) -> String {
+    match style {
+        Style::Plain => options[0].to_string(),
+        Style::Fancy => rng.pick(options).to_string(),
+    }
+}
+
+pub fn op_spellings(op: Op) -> &'static [&'static str] {
+    match op {
+        Op::And => &["&", "*", "and"],
+        Op::Or => &["|", "+", "or"],
+        Op::Xor => &["^", "xor"],
+        Op::Nor => &["nor"],
+        Op::Nand => &["nand"],
+        Op::Implies => &["=>", "implies", "in"],
+        Op::ImpliesInv => &["<="],
+        Op::Iff => &["<=>", "iff", "eq"],
+    }
+}
+
+pub fn cmp_spelling(c: Cmp) -> &'static str {
+    match c {
+        Cmp::AtMost => "<=",
+        Cmp::LessThan => "<",
+        Cmp::AtLeast => ">=",
+        Cmp::MoreThan => ">",
+        Cmp::Exactly => "=",
+    }
+}
+
+/// A term after which a following binary operator cannot be captured by an open body.
+fn closed(f: &Ast) -> bool {
+    match f {
+        Ast::False | Ast::True | Ast::Var(_) | Ast::Ref(_) | Ast::CountConst(..) | Ast::CountList(..) => true,
+        Ast::Not(g) => closed(g),
+        Ast::Quant(..) | Ast::Fix(..) | Ast::Ite(..) | Ast::Bin(..) => false,
+    }
+}
+
+fn toks(f: &Ast, rng: &mut Rng, style: Style, out: &mut Vec<String>) {
+    let redundant = style == Style::Fancy && rng.chance(1, 12);
+    if redundant {
+        out.push("(".into());
+    }
+    match f {
+        Ast::False => out.push("false".into()),
+        Ast::True => out.push("true".into()),
+        Ast::Var(v) => out.push(v.clone()),
+        Ast::Ref(r) => out.push(format!("{{{}}}", r)),
+        Ast::Not(g) => {
+            out.push(spell(rng, style, &["-", "!", "not"]));
+            // negation applies to the next simple term only
+            let simple = !matches!(g.as_ref(), Ast::Bin(..));
+            if simple {
+                toks(g, rng, style, out);
+            } else {
+                out.push("(".into());
+                toks(g, rng, style, out);
+                out.push(")".into());
+            }
+        }
+        Ast::Quant(forall, vs, g) => {
+            out.push(if *forall { spell(rng, style, &["forall", "all"]) } else { spell(rng, style, &["exists", "any"]) });
+            for (i, v) in vs.iter().enumerate() {
+                out.push(v.clone());
+                if i + 1 < vs.len() || (style == Style::Fancy && rng.chance(1, 6)) {
+                    out.push(",".into());
+                }
+            }
+            out.push("#".into());
+            toks(g, rng, style, out);
+        }
+        Ast::Fix(x, gfp, g) => {
+            out.push(if *gfp { spell(rng, style, &["gfp", "nu"]) } else { spell(rng, style, &["lfp", "mu"]) });
+            out.push(x.clone());
+            out.push("#".into());
+            toks(g, rng, style, out);
+        }
+        Ast::Ite(c, t, e) => {
+            out.push("if".into());
+            toks(c, rng, style, out);
+            out.push("then".into());
+            toks(t, rng, style, out);
+            out.push("else".into());
+            toks(e, rng, style, out);
+        }
+        Ast::CountConst(cmp, xs, n) => {
+            list_toks(xs, rng, style, out);
+            out.push(cmp_spelling(*cmp).into());
+            out.push(n.to_string());
+        }
+        Ast::CountList(cmp, xs, ys) => {
+            list_toks(xs, rng, style, out);
+            out.push(cmp_spelling(*cmp).into());
+            list_toks(ys, rng, style, out);
+        }
+        Ast::Bin(op, l, r) => {
+            if closed(l) {
+                toks(l, rng, style, out);
+            } else {
+                out.push("(".into());
+                toks(l, rng, style, out);
+                out.push(")".into());
+            }
+            out.push(spell(rng, style, op_spellings(*op)));
+            toks(r, rng, style, out);
+        }
+    }
+    if redundant {
+        out.push(")".into());
+    }
+}
+
+fn list_toks(xs: &[Ast], rng: &mut Rng, style: Style, out: &mut Vec<String>) {
+    out.push("[".into());
+    for (i, x) in xs.iter().enumerate() {
+        toks(x, rng, style, out);
+        if i + 1 < xs.len() || (style == Style::Fancy && rng.chance(1, 6)) {
+            out.push(",".into());
+        }
+    }
+    out.push("]".into());
+}
+
+fn wordish(s: &str) -> bool {
+    s.chars().next().map(|c| c == '\'' || crate::refsyn::is_word(c)).unwrap_or(false)
+}
+
+fn wordish_end(s: &str) -> bool {
+    s.chars().last().map(|c| c == '\'' || crate::refsyn::is_word(c)).unwrap_or(false)
+}
+
+const SEPARATORS: [&str; 9] = [" ", "  ", "\n", "\t", " ; ", " . ", "\r\n", " ~ ", " ? "];
+const COMMENTS: [&str; 5] = ["\"c\"", "\"a & b\"", "\"\"", "\"multi\nline [1] <=>\"", "\"é #\""];
+
+pub fn join_tokens(tokens: &[String], rng: &mut Rng, style: Style) -> String {
+    let mut s = String::new();
+    for (i, t) in tokens.iter().enumerate() {
+        if i > 0 {
+            let need = wordish_end(&tokens[i - 1]) && wordish(t);
+            match style {
+                Style::Plain => s.push(' '),
+                Style::Fancy => {
+                    let r = rng.below(10);
+                    if r < 3 && !need {
+                        // nothing
+                    } else if r < 8 {
+                        s.push(' ');
+                    } else if r == 8 {
+                        s.push_str(*rng.pick(&SEPARATORS));
+                    } else {
+                        s.push(' ');
+                        s.push_str(*rng.pick(&COMMENTS));
+                        s.push(' ');
+                    }
+                }
+            }
+        }
+        s.push_str(t);
+    }
+    if style == Style::Fancy && rng.chance(1, 8) {
+        s.push_str(*rng.pick(&SEPARATORS));
+    }
+    if style == Style::Fancy && rng.chance(1, 10) {
+        s = format!("{} {}", rng.pick(&COMMENTS), s);
+    }
+    s
+}
+
+pub fn render_tokens(f: &Ast, rng: &mut Rng, style: Style) -> Vec<String> {
+    let mut out = Vec::new();
+    toks(f, rng, style, &mut out);
+    out
+}
+
+pub fn render(f: &Ast, rng: &mut Rng, style: Style) -> String {
+    let t = render_tokens(f, rng, style);
+    join_tokens(&t, rng, style)
+}
+
+/// Deterministic plain rendering (no randomness): canonical spellings, single spaces.
+pub fn render_plain(f: &Ast) -> String {
+    let mut rng = Rng::new(0);
+    render(f, &mut rng, Style::Plain)
+}
+
+pub const PLAIN_NAMES: [&str; 6] = ["a", "b", "c", "d", "e", "f"];
+pub const FANCY_NAMES: [&str; 12] = ["a", "b'", "_x", "x1", "hello_world", "é", "λx", "中", "X", "a1b2", "'q", "longer_name_9"];
+
+/// Every spelling of every token kind (for soups / mutations).
+pub const TOKEN_SPELLINGS: [&str; 62] = [
+    "a", "b", "c", "x'", "_y", "0", "1", "2", "3", "17", "{r}", "&", "*", "and", "|", "+", "or", "^", "xor", "nor", "nand", "=>", "implies", "in", "<=", "<=>", "iff", "eq", "-",
+    "!", "not", "exists", "any", "forall", "all", "if", "then", "else", "lfp", "mu", "gfp", "nu", "true", "false", "#", "=", "<", ">", ">=", "(", ")", "[", "]", ",", "\"c\"", ";", "{", "}",
+    "\"", "'", "é", "٣",
+];
+
+/// Token-level mutation of a valid token list: the interesting negatives are one edit from a sentence.
+pub fn mutate_tokens(tokens: &[String], rng: &mut Rng) -> Vec<String> {
+    let mut t = tokens.to_vec();
+    let edits = 1 + rng.usize(2);
+    for _ in 0..edits {
+        if t.is_empty() {
+            t.push(rng.pick(&TOKEN_SPELLINGS).to_string());
+            continue;
+        }
+        let i = rng.usize(t.len());
+        match rng.below(7) {
+            0 => {
+                t.remove(i);
+            }
+            1 => {
+                let c = t[i].clone();
+                t.insert(i, c);
+            }
+            2 => {
+                let j = rng.usize(t.len());
+                t.swap(i, j);
+            }
+            3 => t[i] = rng.pick(&TOKEN_SPELLINGS).to_string(),
+            4 => t.insert(i, rng.pick(&TOKEN_SPELLINGS).to_string()),
+            5 => {
+                // drop a bracket somewhere
+                if let Some(p) = t.iter().position(|x| x == "(" || x == ")" || x == "[" || x == "]") {
+                    t.remove(p);
+                }
+            }
+            _ => {
+                // truncate
+                t.truncate(i);
+            }
+        }
+    }
+    t
+}
+
+#[cfg(test)]
+mod tests {
+    use super::*;
+    use crate::refsyn::parse_text;
+
+    #[test]
+    fn render_roundtrip() {
+        // the renderer must produce texts whose reference parse is the intended tree
+        let mut rng = Rng::new(42);
+        let cfg = GenCfg::simple(&PLAIN_NAMES, 5);
+        for _ in 0..20000 {
+            let f = gen_ast(&mut rng, &cfg);
+            for style in [Style::Plain, Style::Fancy] {
+                let text = render(&f, &mut rng, style);
+                let back = parse_text(&text).unwrap_or_else(|e| panic!("unparsable rendering {:?}: {:?}", text, e));
+                assert_eq!(back, f, "text: {}", text);
+            }
+        }
+    }
+}
